@@ -31,7 +31,8 @@ pub fn gen_case(seed: u64, idx: usize) -> Case {
     let mut rng = Rng::new(mix(seed, &[tag("C11"), tag("e1case"), idx as u64]));
     let opts = gen::random_delta_opts(&mut rng);
     let gp = gen::random_params(&mut rng, opts.line_buffer_size.min(8));
-    let lines = gen::generate(&mut rng, &gp);
+    let mut lines = gen::generate(&mut rng, &gp);
+    let _ = gen::add_byte_features(&mut lines, &mut rng);
     let n = rng.range(1, 8);
     let mut rchunks: Vec<i64> = (0..n).map(|_| *rng.pick(&[0i64, 1, 2, 5, 17, 33, 100, 1000, 8192])).collect();
     if rchunks.iter().all(|c| *c == 0) {
